@@ -63,6 +63,11 @@ func (c *cliEnd) take() []*tunnelpb.ClientToServer {
 	c.out = nil
 	return o
 }
+func (c *cliEnd) isClosed() bool {
+	c.mu.Lock()
+	defer c.mu.Unlock()
+	return c.closed
+}
 func (c *cliEnd) tearDown() {
 	c.mu.Lock()
 	c.closed = true
@@ -102,6 +107,8 @@ type cRun struct {
 	reqTot map[int64]int
 	cancelAll context.CancelFunc
 	onStep    func()
+	onEmit    func([]*tunnelpb.ClientToServer)
+	lastObs   string
 }
 
 func (r *cRun) done(sid int64, op, res string) {
@@ -171,7 +178,11 @@ func chanErrClass(err error) string {
 func (r *cRun) observe() string {
 	synctest.Wait()
 	var fs []string
-	for _, m := range r.end.take() {
+	emitted := r.end.take()
+	if r.onEmit != nil {
+		r.onEmit(emitted)
+	}
+	for _, m := range emitted {
 		fs = append(fs, r.fmtC2S(m))
 	}
 	sort.SliceStable(fs, func(i, j int) bool { return sidOf(fs[i]) < sidOf(fs[j]) })
@@ -202,6 +213,7 @@ func (r *cRun) observe() string {
 	if !r.finished && r.end.in.length() > 0 {
 		blocked = " B=1"
 	}
+	r.lastObs += " ## " + fmt.Sprintf("D=[%s]", strings.Join(dones, " "))
 	return fmt.Sprintf("F=[%s] D=[%s] E=[%s] T=[%s] L=%s%s", strings.Join(fs, " "), strings.Join(dones, " "),
 		strings.Join(events, ";"), tbl, last, blocked)
 }
@@ -418,34 +430,37 @@ func (r *cRun) callCancel(p *crpc) {
 }
 
 func (r *cRun) refresh() {
-	line := r.ops.lastImpl
-	i := strings.Index(line, "D=[")
-	if i < 0 {
-		return
-	}
-	j := strings.Index(line[i:], "]")
-	for _, d := range strings.Fields(line[i+3 : i+j]) {
-		dot := strings.IndexByte(d, '.')
-		col := strings.IndexByte(d, ':')
-		if dot < 0 || col < dot {
+	line := r.lastObs
+	r.lastObs = ""
+	for _, seg := range strings.Split(line, " ## ") {
+		i := strings.Index(seg, "D=[")
+		if i < 0 {
 			continue
 		}
-		sid, _ := strconv.ParseInt(d[:dot], 10, 64)
-		op := d[dot+1 : col]
-		for _, p := range r.rpcs {
-			if p.sid != sid {
+		j := strings.Index(seg[i:], "]")
+		for _, d := range strings.Fields(seg[i+3 : i+j]) {
+			dot := strings.IndexByte(d, '.')
+			col := strings.IndexByte(d, ':')
+			if dot < 0 || col < dot {
 				continue
 			}
-			switch op {
-			case "recv", "header":
-				p.recvPend = false
-			case "send":
-				p.sendPend = false
-				if d[col+1:] != "ok" {
-					p.sendFailed = true
+			sid, _ := strconv.ParseInt(d[:dot], 10, 64)
+			op := d[dot+1 : col]
+			for _, p := range r.rpcs {
+				if p.sid != sid {
+					continue
 				}
-			case "closesend":
-				p.sendPend = false
+				switch op {
+				case "recv", "header":
+					p.recvPend = false
+				case "send":
+					p.sendPend = false
+					if d[col+1:] != "ok" {
+						p.sendFailed = true
+					}
+				case "closesend":
+					p.sendPend = false
+				}
 			}
 		}
 	}
